@@ -180,7 +180,7 @@ func c14Round(ev *vlib.Evidence, transport string, idx int) {
 	if transport == "memnet" {
 		cancelShare = r.Intn(3) // 0: none; else 1 in (6/cancelShare) calls
 	}
-	var okCalls, cancelled, mismatches, nestedProblems int64
+	var okCalls, cancelled, mismatches, nestedProblems, racyCancelled, racyAnswered int64
 	var outstanding int64
 	var wg sync.WaitGroup
 	var heldMu sync.Mutex
@@ -296,9 +296,31 @@ func c14Round(ev *vlib.Evidence, transport string, idx int) {
 					}
 					ctx, cancel := context.WithTimeout(context.Background(), 120*time.Second)
 					var rep EchoReply
+					racy := rr.Intn(8) == 0
+					if racy {
+						// cancellation racing the reply: the context ends at about the moment the reply
+						// arrives (nothing withheld). Either outcome is fine for this call - its own reply
+						// or the context's error - and whatever it leaves behind must never reach a later call.
+						depth = 0
+						extra := time.Duration(rr.Intn(300)) * time.Microsecond
+						go func() {
+							for i := 0; other.count(token) == 0 && i < 20000 && atomic.LoadInt32(&stalled) == 0; i++ {
+								time.Sleep(50 * time.Microsecond)
+							}
+							time.Sleep(extra)
+							cancel()
+						}()
+					}
 					err := from.Call(ctx, &rep, "echo_echo", token, depth)
 					cancel()
 					atomic.AddInt64(&outstanding, -1)
+					if racy && err == context.Canceled {
+						atomic.AddInt64(&racyCancelled, 1)
+						continue
+					}
+					if racy && err == nil {
+						atomic.AddInt64(&racyAnswered, 1)
+					}
 					if err != nil {
 						if atomic.LoadInt32(&stalled) == 1 {
 							return
@@ -346,6 +368,8 @@ func c14Round(ev *vlib.Evidence, transport string, idx int) {
 	time.Sleep(2 * time.Millisecond)
 	ev.Count("calls-ok", okCalls)
 	ev.Count("calls-cancelled-with-reply-withheld", cancelled)
+	ev.Count("calls-cancelled-racing-their-reply:cancelled", racyCancelled)
+	ev.Count("calls-cancelled-racing-their-reply:answered", racyAnswered)
 	ev.Count("pending-entries-at-quiescence", int64(pair.a.VerifPendingLen()+pair.b.VerifPendingLen()))
 	if rn != nil {
 		ev.Count("deliveries", atomic.LoadInt64(&rn.Delivered))
@@ -448,7 +472,7 @@ func c14PendingLimit(ev *vlib.Evidence, idx int) {
 
 func TestC14(t *testing.T) {
 	ev := vlib.NewEvidence("C14", "exploration",
-		"(limit) with the production routing-table limit (50/10, also smaller ones) 1-3 calls wait for slow replies while limit+discard+0..29 other calls on the connection are cancelled: the waiting calls still get their own replies and cancelled calls return with the context error; two real jsonrpc2.Remote ends joined by (a) an in-memory network that delivers queued messages in PRNG-chosen order (replies overtake requests, bursts, replies before the caller waits) and can withhold replies, (b) IOCodec over net.Pipe, (c) IOCodec over loopback TCP, (d) the gorilla WebSocket codec over loopback; handlers also delegate to an in-process jsonrpc2.Local handing on their context; 1..16 concurrent callers per side, unique token per call, handlers echo (token, callee, identity of the context service) and call back over the same connection to depth <= 3; cancellations are issued while the reply is provably withheld, then the late reply is released; PendingLimit 0 and 50/10; non-trivial = calls succeeded with >1 caller or nesting (memnet: and at least one reordered delivery); distinct = round descriptors")
+		"(race) one call in eight is cancelled at about the moment its reply arrives (nothing withheld): it may return its own reply or the context error, and nothing it leaves behind may reach a later call; (limit) with the production routing-table limit (50/10, also smaller ones) 1-3 calls wait for slow replies while limit+discard+0..29 other calls on the connection are cancelled: the waiting calls still get their own replies and cancelled calls return with the context error; two real jsonrpc2.Remote ends joined by (a) an in-memory network that delivers queued messages in PRNG-chosen order (replies overtake requests, bursts, replies before the caller waits) and can withhold replies, (b) IOCodec over net.Pipe, (c) IOCodec over loopback TCP, (d) the gorilla WebSocket codec over loopback; handlers also delegate to an in-process jsonrpc2.Local handing on their context; 1..16 concurrent callers per side, unique token per call, handlers echo (token, callee, identity of the context service) and call back over the same connection to depth <= 3; cancellations are issued while the reply is provably withheld, then the late reply is released; PendingLimit 0 and 50/10; non-trivial = calls succeeded with >1 caller or nesting (memnet: and at least one reordered delivery); distinct = round descriptors")
 	ev.Assume("stall detection is logical (no delivery and no completion for 15 s with calls outstanding), not a deadline on the round")
 	parallelCases(vlib.Scale(12, 600), 6, func(i int) { c14PendingLimit(ev, i) })
 	parallelCases(vlib.Scale(200, 60000), 12, func(i int) { c14Round(ev, "memnet", i) })
